@@ -191,3 +191,8 @@ Definition hyp_readb (c : carrier) (pid : N) (l : list item) : bool :=
 Definition hyp_filterb (c : carrier) (pid : N) (l : list item) : bool :=
   wf_carrierb c && (match pre c with [] => true | _ => false end) && all_mineb l &&
   forallb (wf_itemb pid) l && bytes_eqb (concat (chunks l)) (ser_payload c).
+(* all hypotheses of C06_L4_read_pmt_after_interrupted: items_a carry only a proper prefix of the unit of ca *)
+Definition hyp_interruptedb (ca cb : carrier) (pid : N) (la lb : list item) : bool :=
+  wf_carrierb ca && hyp_readb cb pid lb && forallb (wf_itemb pid) la &&
+  (len (concat (chunks la)) <? len (ser_unit ca)) &&
+  bytes_eqb (concat (chunks la)) (takeN (len (concat (chunks la))) (ser_unit ca)) && cuts_okb ca la.
